@@ -611,16 +611,18 @@ class MathExpression(object):
                 for var1 in variables:
                     if var1.lower() == var2.lower():
                         caselist.add(var1)
+            message = message.format(varnames)
             if len(caselist) > 0:
                 betternames = "', '".join(sorted(caselist))
                 message += " (did you mean '" + betternames + "'?)"
 
-            raise UndefinedVariable(message.format(varnames))
+            raise UndefinedVariable(message)
 
         bad_funcs = set(func for func in self.functions_used if func not in functions)
         if bad_funcs:
             funcnames = "', '".join(sorted(bad_funcs))
             message = "Invalid Input: '{}' not permitted in answer as a function"
+            message = message.format(funcnames)
 
             # Check to see if there is a corresponding variable name
             if any(func in variables for func in bad_funcs):
@@ -636,7 +638,7 @@ class MathExpression(object):
                 betternames = "', '".join(sorted(caselist))
                 message += " (did you mean '" + betternames + "'?)"
 
-            raise UndefinedFunction(message.format(funcnames))
+            raise UndefinedFunction(message)
 
         bad_suffixes = set(suff for suff in self.suffixes_used if suff not in suffixes)
         if bad_suffixes:
